@@ -19,7 +19,7 @@ EXTRA_TARGETS = ["theories/Typed/SchemaChecks.vo", "theories/Typed/RoundtripTabl
 GEN_OBLIGATIONS = [
     "Typed/RoundtripTable.v:Schema_table_wf (field names distinct, defaults / hooks on the types the proof needs, remove_colon classes colon-free)",
     "Typed/RoundtripTable.v:Schema_modelled_wf (every modelled class: required Type : Literal[its own string]; GenericResource.Type guarded)",
-    "Typed/RoundtripTable.v:Schema_unions_count (248 written unions, 15 distinct)",
+    "Typed/RoundtripTable.v:Schema_unions_count (15 distinct unions, however often written)",
     "Typed/UnionStable.v:TABLE_UNIONS_ok (every distinct union of the live classes is of a shape the stability lemmas cover)",
     "Typed/UnionStable.v:TABLE_UNIONS_classified (13 by the shape argument, Resolvable[Union[int,str]] and ResolvableIPOrStrOrList "
     "by their own lemmas)",
